@@ -46,7 +46,7 @@ def check(seed, tier):
         "rule": "one event per pair (x, y): the four merges m=x.merge(y), x.merge(x), m.merge(y), m.merge(x) and the same four through merge_with; "
                 "pairs: 1-byte intervals incl. loop-style partners (same start/end grown by a few strides, kept/new widening hints, delays), wider "
                 "intervals, bit-vector values, all taint pairs, data domains over 3 identifiers, maps over 4 keys per strategy and value domain, "
-                "regions over offsets -8..40 with cell sizes 1/2/4/8 sharing part of their layout; non-trivial = the merge differs from both "
+                "regions over offsets -8..28 with cell sizes 1/2/4/8 sharing part of their layout; non-trivial = the merge differs from both "
                 "inputs; distinct = distinct event hashes",
         "samples": meta["samples"], "mc_runs": rep.cov.get("mc_runs"), "trusted_base": TRUSTED,
     }, ["1-byte intervals: gamma enumerated completely; wider intervals: sampled members (Interval!Members)",
